@@ -231,7 +231,7 @@ func instrDominatesOrSkips(a, b ssa.Instruction) bool {
 func init() {
 	register(&PropSpec{
 		ID:          "C08",
-		Explanation: "Decides operator order and pairing in the plan builders: WHERE filter below GROUP BY on every path with a WHERE; HAVING applied between Flatten and ORDER/LIMIT in both planners that group on this node, keeping exactly rows whose helper value is 1 and hiding the helper column; IN-subqueries run before the predicate and nil results drop the row. Added clauses: goroutines started per IN-subquery bind per-iteration values (go 1.12 loop variables); _having is the last field the group operator emits, also with CROSSTABT totals.",
+		Explanation: "Decides operator order and pairing in the plan builders: WHERE filter below GROUP BY on every path with a WHERE; HAVING applied between Flatten and ORDER/LIMIT in both planners that group on this node, keeping exactly rows whose helper value is 1 and hiding the helper column; IN-subqueries run before the predicate and nil results drop the row. Added clauses: goroutines started per IN-subquery bind per-iteration values (go 1.12 loop variables); _having is the last field the group operator emits, also with CROSSTABT totals. Further clauses: registered comparisons are exactly their operators; rows handed to row callbacks are not reused buffers; the sub-query field source always resolves the wrapped source.",
 		NotDecided:  []string{"predicate evaluation inside goexpr", "HAVING arithmetic", "equality with a differential run", "FROM (subquery) field mapping beyond Unflatten's wiring"},
 		Assumptions: []string{"goexpr.Expr.Eval returns a bool or nil for boolean predicates"},
 		Rules:       []func(*Ctx){func(c *Ctx) { ruleC08a(c, "C08.a") }, func(c *Ctx) { ruleC08b(c, "C08.b") }, func(c *Ctx) { ruleC08c(c, "C08.c") }, func(c *Ctx) { ruleC08d(c, "C08.d") }, func(c *Ctx) { ruleLoopCapture(c, "C08.e", "z/planner") }, func(c *Ctx) { ruleC08f(c, "C08.f") }, func(c *Ctx) { ruleC08g(c, "C08.g") }, func(c *Ctx) { ruleC08h(c, "C08.h") }, func(c *Ctx) { ruleC08i(c, "C08.i") }},
